@@ -438,6 +438,11 @@ def mon_c16(spec, run):
         elif c["t_ret"] - c["t_call"] > 2 * JOIN_US + 100_000:
             bad.append(("slow", f"close() took {(c['t_ret'] - c['t_call']) / 1e6:.2f}s"))
     first_call = min(c["call"] for c in closes)
+    # close() is safe: it must not make a library thread crash (an exception that is not the transport's own error)
+    for e in tr:
+        if e["k"] == "thread_exc" and e["th"][:1] in ("R", "S") and e["seq"] > first_call and e["exc"] not in ("SerialException", "PortNotOpenError", "SerialTimeoutException", "OSError"):
+            bad.append(("thread-crash", f"library thread {e['th']} crashed with {e['exc']}: {e.get('msg')} while / after close() ran"))
+            break
     if fault is None:
         for e in tr:
             if e["k"] == "disc_cb" and e["seq"] > first_call:
@@ -512,8 +517,25 @@ def mon_c15(spec, run):
     # once the reader has seen the failure at most the one command the sender had already taken from its queue can still be written
     # (virtual time stands still while the reader is runnable, so without injected stalls nothing else can become due in between)
     if rf[0]["k"] == "read_fault" and not spec.get("stall"):
-        before = {text_of(c["op"]) for c in cs if text_of(c["op"]) is not None and c["ret"] is not None and c["ret"] < f}      # submitted, entirely before the failure was read
-        late = [e for e in tr if e["k"] == "write" and e["seq"] > f and bytes.fromhex(e["data"])[:-2].decode("utf-8", "replace") in before]
+        # per text: submissions that had returned before the failure was read, minus what was already on the wire by then = the
+        # commands that were queued (or held by the sender) at that moment; identical texts submitted later do not count
+        old = {}
+        for c in cs:
+            t_ = text_of(c["op"])
+            if t_ is not None and c["ret"] is not None and c["ret"] < f:
+                old[t_] = old.get(t_, 0) + 1
+        for e in tr:
+            if e["k"] == "write" and e["seq"] < f:
+                t_ = bytes.fromhex(e["data"])[:-2].decode("utf-8", "replace")
+                if old.get(t_, 0) > 0:
+                    old[t_] -= 1
+        late = []
+        for e in tr:
+            if e["k"] == "write" and e["seq"] > f:
+                t_ = bytes.fromhex(e["data"])[:-2].decode("utf-8", "replace")
+                if old.get(t_, 0) > 0:
+                    old[t_] -= 1
+                    late.append(e)
         if len(late) > 1:
             bad.append(("queued-written", f"{len(late)} commands were written after the reader had seen the transport fail (queued commands must be discarded): "
                                           f"{[bytes.fromhex(e['data'])[:40] for e in late[:4]]}"))
